@@ -193,7 +193,9 @@ def check(pid, tier, seed):
     keys = ["x", "y", "key3", "k4", "K-5", "k.6"]
     vals = ["", "v", "a b", "v\n w", "v\n w\n\tx y", "12", "true", "a=b", "semi;colon", "hash#tag", " lead", "trail ", "\"q\"", "x:y", "tab\tin",
             # texts the library itself uses as markers / words: ordinary values like any other
-            "_none_", "(null)", "NULL", "false", "[A]", "yes", "0"]
+            "_none_", "(null)", "NULL", "false", "[A]", "yes", "0",
+            # text that means something to the formatting functions
+            "100%", "%%", "%s", "%d%%", "a\\nb", "\\"]
     for _ in range(nr):
         hist = []
         for _ in range(rnd.randint(1, 40)):
